@@ -127,3 +127,77 @@ func H_error_line() {
 	}
 	symx.Reach("end")
 }
+
+// faults inside a string whose text before the interpolation is symbolic: the line of the
+// interpolation depends on the bytes (newlines, multi-byte characters) in front of it
+var inString = []struct {
+	pre, post, mark string // mark: start of the faulty construct inside post
+	forbidden       string
+}{
+	{"$s = \"", "\n{$q->m()} x\";", "{$q", "\"\\${}@"},
+	{"$s = \"a", "{$q->m()} x\";", "{$q", "\"\\${}@"},
+	{"$s = \"", "\n@{ nofn(1) } x\";", "@{", "\"\\${}@"},
+	{"$s = <<<EOT\n", "\n{$q->m()} x\nEOT;", "{$q", "\\${}@E"},
+	{"$s = <<<EOT\nab", " {$q->m()} x\nEOT;", "{$q", "\\${}@E"},
+}
+
+// H_error_line_instring: an uncaught runtime error raised by an interpolation inside a
+// (multi-line) string or heredoc is reported on the line of the interpolation, whatever bytes
+// precede it inside the string.
+func H_error_line_instring() {
+	n := symx.Param("n", 1)
+	f := inString[symx.Choose("form", len(inString))]
+	w := symx.String("w", n)
+	for i := 0; i < n; i++ {
+		for j := 0; j < len(f.forbidden); j++ {
+			symx.Assume(w[i] != f.forbidden[j])
+		}
+		if len(f.pre) > 8 && f.pre[5:8] == "<<<" {
+			// a heredoc body is normalised (a lone CR becomes a line feed there and only there):
+			// which line follows a lone CR is not defined by the property; CR LF is covered
+			symx.Assume(w[i] != '\r' || (i+1 < n && w[i+1] == '\n'))
+		}
+	}
+	at := 0
+	for at+len(f.mark) <= len(f.post) && f.post[at:at+len(f.mark)] != f.mark {
+		at++
+	}
+	before := "$k = 1;\n" + f.pre + w + f.post[:at]
+	src := before + f.post[at:] + "\n$z = 3;\n"
+	want := 0
+	for i := 0; i < len(before); i++ {
+		want += symx.Ite(before[i] == '\n', 1, 0)
+	}
+	p := parser.NewParser()
+	vm := runtime.NewVM(p)
+	vm.AddInterface(exception.NewThrowableInterface())
+	vm.AddInterface(exception.NewStringableInterface())
+	vm.AddClass(exception.NewExceptionClass())
+	var uncaught []data.Control
+	vm.SetThrowControl(func(acl data.Control) { uncaught = append(uncaught, acl) })
+	data.WriteOutput = func(string) {}
+	prog, ctl := p.ParseString(src, "t.zy")
+	symx.Reach("parsed")
+	if ctl != nil || prog == nil {
+		// some windows change the structure of the string (an unterminated escape, a control
+		// character the lexer rejects): a diagnostic is a legitimate outcome, the clause is about
+		// accepted programs
+		symx.Reach("rejected")
+		return
+	}
+	ctx := vm.CreateContext(p.GetVariables())
+	_, rctl := prog.GetValue(ctx)
+	if rctl == nil && len(uncaught) > 0 {
+		rctl = uncaught[0]
+	}
+	symx.Assert(rctl != nil, "the faulty interpolation ends the script with an uncaught throwable")
+	if rctl == nil {
+		return
+	}
+	l, ok := lineOfControl(rctl)
+	symx.Assert(ok, "runtime diagnostic carries a location")
+	if ok {
+		symx.Assert(l == want, "error inside an interpolation is reported on the line of the interpolation")
+	}
+	symx.Reach("end")
+}
